@@ -55,6 +55,54 @@ class CommitObserver(Observer):
                                 sig="C09 uncommitted usage state at frame (%s)" % t)
         if w.commit_count > self.commit_mark:
             self.frames_after_write += 1
+        self.check_acknowledged(w, cid, frame, ind)
+
+    def check_acknowledged(self, w, cid, frame, ind):
+        """What this frame acknowledges must already be in the committed files."""
+        t = frame.get("type")
+        if t not in ("message", "claimed", "allocated", "released", "closed") or not w.steps:
+            return
+        op = w.steps[-1].op
+        if op.get("op") != "send" or self.driver is None:
+            return
+        m = op.get("rmsg") or op.get("msg")
+        sender = self.driver.tr.conns.get(op["c"])
+        if sender is None or not sender.bound:
+            return
+        app, side = sender.app, sender.side
+        what = None
+        if t == "message" and m.get("type") == "add":
+            want = (app, side, m.get("phase"), m.get("body"), m.get("id"))
+            if frame.get("side") == side and not any((r[0], r[2], r[3], r[4], r[6]) == want for r in ind["messages"]):
+                what = "the added message %r is not stored yet" % (want,)
+        elif t == "claimed" and m.get("type") == "claim" and cid == op["c"]:
+            mid, name = frame.get("mailbox"), m.get("nameplate")
+            nps = [r for r in ind["nameplates"] if r[1] == app and r[2] == name and r[3] == mid]
+            if not nps:
+                what = "no committed nameplate %r -> mailbox %r" % (name, mid)
+            elif not any(r[0] == nps[0][0] and r[2] == side and r[1] for r in ind["nameplate_sides"]):
+                what = "the claim of side %r on %r is not committed" % (side, name)
+            elif not any(r[0] == mid and r[2] == side for r in ind["mailbox_sides"]):
+                what = "the mailbox side record of %r is not committed" % (side,)
+        elif t == "allocated" and cid == op["c"]:
+            name = frame.get("nameplate")
+            nps = [r for r in ind["nameplates"] if r[1] == app and r[2] == name]
+            if not nps or not any(r[0] == nps[0][0] and r[2] == side and r[1] for r in ind["nameplate_sides"]):
+                what = "the allocated nameplate %r is not committed as claimed by %r" % (name, side)
+        elif t == "released" and m.get("type") == "release" and cid == op["c"]:
+            name = m.get("nameplate", sender.claim_np)
+            for r in ind["nameplates"]:
+                if r[1] == app and r[2] == name:
+                    if any(s[0] == r[0] and s[2] == side and s[1] for s in ind["nameplate_sides"]):
+                        what = "side %r still holds its claim on %r in the committed state" % (side, name)
+        elif t == "closed" and m.get("type") == "close" and cid == op["c"]:
+            mid = m.get("mailbox", sender.open_id)
+            if any(r[0] == app and r[1] == mid for r in ind["mailboxes"]):
+                if any(s[0] == mid and s[2] == side and s[1] for s in ind["mailbox_sides"]):
+                    what = "side %r is still recorded as open on %r in the committed state" % (side, mid)
+        if what:
+            raise Violation("frame %r sent before its effect is committed: %s" % (_brief(frame), what),
+                            sig="C09 acknowledged effect not committed (%s)" % t)
 
     def on_step(self, j, op, st, tr_before, gone):
         self.commit_mark = self.w.commit_count
@@ -81,8 +129,8 @@ def _d(a, b):
 class C09(HistoryCheck):
     id = "C09"
     profile = "mixed"
-    profiles = ["mixed", "closers", "usage", "sweeper"]
-    rule = ("Histories from profiles mixed/closers/usage/sweeper on real database files, with and without usage DB. A monitor "
+    profiles = ["mixed", "closers", "usage", "sweeper", "crowd", "hostile"]
+    rule = ("Histories from profiles mixed/closers/usage/sweeper/crowd/hostile (so that refusals - crowded, reclaimed, protocol errors - are frequent) on real database files, with and without usage DB. A monitor "
             "runs inside the outbound-frame path, i.e. at the crash point 'right after this frame': (i) neither server "
             "connection is inside a transaction; (ii) the dump of all tables through an independent read-only connection to the "
             "files equals the dump through the server's own connection, for both databases; (iii) once per service "
